@@ -16,7 +16,7 @@
 # limitations under the License.
 # -----------------------------------------------------------------------------
 from .tlv_type import BinaryStr, VarBinaryStr
-from .tlv_var import parse_and_check_tl
+from .tlv_var import parse_and_check_tl, parse_tl_num
 from .tlv_model import TlvModel, UintField, BytesField, ModelField, BoolField, DecodeError
 
 __all__ = ['LpTypeNumber', 'NackReason', 'parse_network_nack', 'make_network_nack', 'parse_lp_packet',
@@ -80,6 +80,27 @@ class LpPacket(TlvModel):
     lp_packet = ModelField(LpTypeNumber.LP_PACKET, LpPacketValue)
 
 
+_LP_FIELD_ORDER = {field.type_num: idx for idx, field in enumerate(LpPacketValue._encoded_fields)}
+
+
+def _check_field_order(wire: BinaryStr):
+    # NDNLPv2 fields appear at most once and in order, Fragment last. The model is parsed with ignore_critical=True
+    # (unknown headers are ignored), which would also skip a KNOWN header standing out of place - and with it
+    # the fact that the packet is a fragment or a Nack.
+    offset = 0
+    last = -1
+    while offset < len(wire):
+        typ, size_typ = parse_tl_num(wire, offset)
+        offset += size_typ
+        length, size_len = parse_tl_num(wire, offset)
+        offset += size_len + length
+        idx = _LP_FIELD_ORDER.get(typ)
+        if idx is not None:
+            if idx <= last:
+                raise DecodeError(f'NDNLP field of type {typ} is redundant or out-of-order')
+            last = idx
+
+
 def parse_lp_packet(wire: BinaryStr, with_tl: bool = True) -> (int | None, BinaryStr | None):
     """
     Parse an LpPacket, return NackReason (if exists) and the fragment.
@@ -109,6 +130,7 @@ def parse_lp_packet_v2(wire: BinaryStr, with_tl: bool = True) -> LpPacketValue:
         wire = parse_and_check_tl(wire, LpTypeNumber.LP_PACKET)
     markers = {}
     ret = LpPacketValue.parse(wire, markers, ignore_critical=True)
+    _check_field_order(wire)
 
     if ret.frag_index is not None or ret.frag_count is not None:
         raise DecodeError('NDNLP fragmentation is not implemented yet.')
@@ -121,6 +143,7 @@ def parse_network_nack(wire: BinaryStr, with_tl: bool = True) -> (int | None, Bi
         wire = parse_and_check_tl(wire, LpTypeNumber.LP_PACKET)
     markers = {}
     ret = LpPacketValue.parse(wire, markers, ignore_critical=True)
+    _check_field_order(wire)
 
     if ret.nack is not None:
         return ret.nack.nack_reason, ret.fragment
